@@ -97,6 +97,7 @@ pub fn evaluate(case: &Case, attr: Attribution) -> EvalOut {
             mode: GcMode::Normal,
             audit: audit_mode_for(case),
             cap: CAP,
+            audit_budget: 600_000_000,
             ..Default::default()
         },
     );
